@@ -69,7 +69,7 @@ def run(prop, tier, replay=None):
         cmd[0] = exe
         wk = vlib.Worker(cmd + ["-v"], "replay", timeout=900, env=dict(env, VERIF_LOUD="1")).run()
         sys.stdout.write(wk.out[-6000:]); sys.stderr.write(wk.err[-3000:])
-        hit = [v for v in wk.records("V") if prop in v.get("props", "").split(",")]
+        hit = [v for v in wk.records("V") if prop in v.get("props", "").split(",") and v.get("key") not in KNOWN_KEYS.split(",")]
         if hit or vlib.sanitizer_report(wk.err) or wk.rc not in (0,):
             print("VIOLATION property=%s replay=%s" % (prop, replay))
             return 1
